@@ -216,6 +216,15 @@ def _thread_from(B, site_bb, ret_local, variant, max_steps=32):
                     known = v
                 elif re.match(r"^(std|core)::option::Option<", ty):
                     known = "0" if v == "1" else "1"
+            if known is None and a0 is not None and not a0.get("p") and a0["l"] in facts:
+                # std combinators whose outcome variant is a function of the input's variant
+                v0 = facts[a0["l"]]
+                if re.search(r"result::Result::<.*>::(map_err|map|inspect|inspect_err|as_ref|as_mut|as_deref|copied|cloned)$", nm) or re.search(r"option::Option::<.*>::(map|inspect|as_ref|as_mut|as_deref|copied|cloned)$", nm):
+                    known = v0
+                elif re.search(r"option::Option::<.*>::(ok_or|ok_or_else)$", nm) or re.search(r"result::Result::<.*>::(ok)$", nm):
+                    known = "0" if v0 == "1" else "1"
+                elif re.search(r"result::Result::<.*>::(err)$", nm):
+                    known = v0
             inner = None
             inner_sd = False
             was = a0 is not None and ("f", a0["l"]) in seeded
